@@ -444,7 +444,12 @@ func (h *hist) execBlock(txns coin.Transactions, dt uint64, tag string) error {
 		return fmt.Errorf("MakeBlock: %v%s", err, why)
 	}
 	if err := h.n.V.ExecuteSignedBlock(sb); err != nil {
-		return fmt.Errorf("ExecuteSignedBlock: %v", err)
+		// the node refuses a block its own CreateBlockFromTxns built: an observable (head -1), the history ends
+		h.steps = append(h.steps, Tuple("HBlock ("+h.blockTerm(sb)+")", "[]", "mk_obs (-1) (-1) [] [] [] [] [] [] [] [] []"))
+		h.desc = append(h.desc, fmt.Sprintf("BLOCK-REJECTED(%v)", err))
+		h.nsteps++
+		h.dist.Add("block:rejected")
+		return errReopen
 	}
 	h.dist.Add(fmt.Sprintf("block:txns=%d", len(sb.Block.Body.Transactions)))
 	return h.record("HBlock ("+h.blockTerm(sb)+")", fmt.Sprintf("%s%d", tag, len(sb.Block.Body.Transactions)))
@@ -568,7 +573,7 @@ func (h *hist) reopen() error {
 	return h.record(fmt.Sprintf("HReopen %s %s %s", iw, hw, List(order)), "R("+strings.Trim(strings.Fields(iw)[0], "(")+","+hw+")")
 }
 
-var errReopen = fmt.Errorf("reopen failed")
+var errReopen = fmt.Errorf("the node failed (recorded as an observation); history ends")
 
 func (h *hist) poolInputs() (map[cipher.SHA256]bool, error) {
 	utx, err := h.n.V.GetAllUnconfirmedTransactions()
